@@ -748,14 +748,16 @@ class ExecComp(ExplicitComponent):
         """
         super()._setup_vectors(parent_vectors)
 
-        if not self._use_derivatives:
-            self._manual_decl_partials = True  # prevents attempts to use _viewdict in compute
-
         self._iodict = _IODict(self._outputs, self._inputs, self._constants)
 
         self._relcopy = False
 
-        if not self._manual_decl_partials:
+        # The complex views are only built (and used by compute) when this component computes its
+        # own complex step partials.  This is decided anew in every setup: a setup without
+        # derivatives must not switch the partials off for later setups.
+        self._viewdict = None
+
+        if not self._manual_decl_partials and self._use_derivatives:
             if self._force_alloc_complex:
                 # we can use the internal Vector complex arrays
 
@@ -801,7 +803,7 @@ class ExecComp(ExplicitComponent):
         outputs : `Vector`
             `Vector` containing outputs.
         """
-        if not self._manual_decl_partials:
+        if self._viewdict is not None:
             if self._relcopy:
                 self._inarray[:] = self._inputs.asarray(copy=False)
                 self._exec()
